@@ -546,7 +546,7 @@ class Expander:
     def do_fn(self, rel, src, it, node, container):
         """Emit fn item `it` with contracts from node (node may be None => verbatim)."""
         an = rlex.FnAnatomy(it)
-        fnid = "%s::%s" % (container, it.name) if container else it.name
+        fnid = "%s::%s" % (container, it.name) if container else getattr(self, "_modprefix", "") + it.name
         spec = {"requires": [], "ensures": [], "decreases": [], "returns": [], "loops": {}, "head": None, "ret": None, "attrs": [], "sigsubs": [], "nloops": None, "bodysubs": []}
         for c in (node["children"] if node else []):
             w = c["text"].split(None, 1)
@@ -564,9 +564,9 @@ class Expander:
             elif k == "sig":
                 a, b = w[1].split(" => ")
                 spec["sigsubs"].append((a.strip(), b.strip()))
-            elif k == "body_sub":
+            elif k in ("body_sub", "body_sub?"):
                 a, b = w[1].split(" => ")
-                spec["bodysubs"].append((a.strip(), b.strip()))
+                spec["bodysubs"].append((a.strip(), b.strip(), k.endswith("?")))
             elif k == "desugar_try":
                 spec["desugar_try"] = True
             elif k == "loop":
@@ -671,12 +671,14 @@ class Expander:
                     cnt += n
             self.rewrites.append("%s: %d `?` in %s desugared to match/return Err(From::from(e)) (rustc's own desugaring for Result)" % (rel, cnt, fnid))
         if spec["bodysubs"]:
-            for a, b in spec["bodysubs"]:
+            for a, b, optional in spec["bodysubs"]:
                 hit = 0
                 for sg in self.out.segs[body_seg0:]:
                     if sg.origin[0] == "repo" and re.search(a, sg.text):
                         sg.text, n = re.subn(a, b, sg.text)
                         hit += n
+                if not hit and optional:
+                    continue
                 if not hit:
                     raise LostAnchor("%s: body rewrite %r does not match in %s" % (rel, a, fnid))
                 self.rewrites.append("%s: body of %s rewritten /%s/ => %s (%d site%s)" % (rel, fnid, a, b, hit, "" if hit == 1 else "s"))
@@ -805,7 +807,16 @@ class Expander:
                 self.do_fn(rel, src, it, node, None)
             elif w[0] == "mod":
                 it = self.find(items, "mod", w[1].strip(), rel)[0]
-                self._walk_nodes(rel, src, it.children(), node["children"])
+                kids = [c for c in node["children"] if c["text"].strip() != "wrap"]
+                wrap = len(kids) != len(node["children"])
+                if wrap:
+                    self.out.add("pub mod %s {\n    use super::*;\n" % it.name, ("tmpl", node["line"]))
+                saved = getattr(self, "_modprefix", "")
+                self._modprefix = saved + it.name + "::"
+                self._walk_nodes(rel, src, it.children(), kids)
+                self._modprefix = saved
+                if wrap:
+                    self.out.add("}\n", ("tmpl", node["line"]))
             else:
                 raise ValueError("%s:%d unknown directive %r" % (self.tmpl_path, node["line"], node["text"]))
 
@@ -839,6 +850,9 @@ class Expander:
                 inc = os.path.join(os.path.dirname(self.tmpl_path), s.split(None, 1)[1].strip())
                 for k, l2 in enumerate(open(inc).read().split("\n")):
                     self.out.add(l2 + "\n", ("tmpl", "%s:%d" % (os.path.basename(inc), k + 1)))
+                i += 1
+                continue
+            if s.startswith("//@rlimit"):
                 i += 1
                 continue
             if s == "//@canary":
